@@ -224,6 +224,15 @@ fn gen_spec(rng: &mut StdRng) -> Spec {
     // one struct whose members have all the interesting sizes at shuffled offsets (one byte,
     // one word, four words, several words, an enum), so that member reads / writes start at
     // every word of a slot and cross slot boundaries
+    // ... and one enum whose variants carry sub-word, one-word and multi-word payloads (the
+    // union padding cases of the slot serialiser)
+    let probe_enum = {
+        let mut vs: Vec<Option<Ty>> = vec![Some(Ty::U8), Some(Ty::Bool), Some(Ty::U64), Some(Ty::U16), Some(Ty::Tuple(vec![Ty::U8, Ty::U64])), Some(Ty::B256), Some(Ty::Str(*choose(rng, &[1usize, 7, 9]))), None];
+        vs.shuffle(rng);
+        vs.truncate(rng.gen_range(2..=6));
+        types.enums.push(vs);
+        Ty::Enum(types.enums.len() - 1)
+    };
     let probe_struct = {
         let mut ms: Vec<Ty> = vec![Ty::U8, Ty::U64, Ty::B256, Ty::U256, Ty::Bool, Ty::U16, Ty::Str(*choose(rng, &[3usize, 8, 9, 17])), Ty::Tuple(vec![Ty::U64, Ty::B256])];
         if !types.enums.is_empty() {
@@ -281,7 +290,9 @@ fn gen_spec(rng: &mut StdRng) -> Spec {
                 1 => Ty::Bool,
                 2 => choose(rng, &[Ty::U16, Ty::U32, Ty::U64]).clone(),
                 3 => choose(rng, &[Ty::U256, Ty::B256]).clone(),
+                _ if k == 1 && rng.gen_bool(0.6) => probe_enum.clone(),
                 4 if k <= 2 => probe_struct.clone(),
+                5 if k <= 3 => probe_enum.clone(),
                 _ => gen_ty(rng, &types, 2, &opts),
             };
             for _ in 0..4 {
